@@ -4,7 +4,7 @@ import vlib, tracechecks as T
 
 
 def evaluate(ck, data, rules, docg):
-    n = exact = 0
+    n = exact = noop = 0
     for o in T.runs(data):
         for r in o["records"]:
             nl = r.get("n_lines")
@@ -14,9 +14,12 @@ def evaluate(ck, data, rules, docg):
             g = T.group_of(rules, docg, rid)
             if g not in T.C07_GROUPS:
                 continue
-            n += 1
             rep_lines = sorted(set(r["lines"]))
             ch = sorted(set(r["changed"]))
+            if not ch and r["same_count"]:
+                noop += 1  # the rule could not repair what it reported (e.g. case: camelCase): nothing changed at all
+                continue
+            n += 1
             if not r["same_count"]:
                 ck.violation("line-count-changed:" + rid, "%s: %s (%s) changed the number of lines" % (T.tag(o), rid, g), T.rep(o, r, changed=ch))
             elif rep_lines != ch:
@@ -26,7 +29,7 @@ def evaluate(ck, data, rules, docg):
             if nl and any(l < 1 or l > nl for l in rep_lines):
                 ck.violation("reported-line-outside-file:" + rid, "%s: %s reported line(s) %r in a file of %d lines" % (T.tag(o), rid, [l for l in rep_lines if l < 1 or l > nl][:4], nl), T.rep(o, r))
     ck.sample({"applications_checked": n, "exact": exact})
-    return {"applications_checked": n, "changed_equals_reported": exact, "evaluations": n}
+    return {"applications_checked": n, "changed_equals_reported": exact, "applications_that_changed_nothing": noop, "evaluations": n}
 
 
 def run(tier):
